@@ -26,6 +26,8 @@ func TestProp(t *testing.T) {
 // TestRace is the free-running driver; the driver builds it with -race.
 func TestRace(t *testing.T) {
 	r := evid.New(t, "C02", cfg)
+	RaceT = t
+	defer func() { RaceT = nil }()
 	addStress(r, 40, 250)
 	r.Main()
 }
